@@ -175,7 +175,8 @@ func ExecuteRace(ctx context.Context, members []Member) (proto.Message, int, err
 // The returned chan will contain the responses in completion order.
 // The chan will be closed once all members have returned a result.
 func executeEach(ctx context.Context, members []Member) <-chan memberResponse {
-	responses := make(chan memberResponse)
+	// buffered so that members abandoned by an early return (ExecuteFast, ExecuteRace) can still finish
+	responses := make(chan memberResponse, len(members))
 	var all sync.WaitGroup
 	all.Add(len(members))
 
